@@ -19,7 +19,6 @@ Definition c_order (_ : nat) (es : kb body) : kb body := es.
 Definition c_step := step body Z c_holds b_self b_zap c_order.
 Definition c_probe := probe_lib body Z c_holds b_self b_zap c_order.
 Definition c_fetch := fetch_kb body Z c_holds.
-Definition c_safe := op_safe body Z.
 
 (* ---- observations ---- *)
 Record ocyc := { oc_evals : list (string * bool); oc_fired : option (string * Z) }.
@@ -30,8 +29,7 @@ Record c16_stepobs := { so_op : op body Z;
                         so_res : ores;
                         so_fact : Z;                                  (* fact value of the probes after this step *)
                         so_lib : list (string * option oprobe);        (* per key: None = "knowledge base does not exist" *)
-                        so_insts : list (list string);                 (* per live instance: names returned by FetchMatchingRules *)
-                        so_safe : bool }.                              (* the harness' own region predicate for this operation *)
+                        so_insts : list (list string) }.               (* per live instance: names returned by FetchMatchingRules *)
 Record c16_case := { c16_id : Z; c16_fuel : nat; c16_steps : list c16_stepobs }.
 
 (* ---- comparison (sets of names; the firing sequence is compared in order: saliences are distinct) ---- *)
@@ -78,9 +76,8 @@ Definition insts_eqb (f : Z) (s : state body) (obs : list (list string)) : bool 
   forallb (fun p => set_eq_str (c_fetch f (i_kb (fst p))) (snd p)) (combine (st_insts s) obs).
 
 Definition step_ok (fuel : nat) (s : state body) (o : c16_stepobs) : state body * bool :=
-  let safe := c_safe s (so_op o) in
   let '(s', r) := c_step s (so_op o) in
-  (s', Bool.eqb safe (so_safe o) && res_eqb r (so_res o) &&
+  (s', res_eqb r (so_res o) &&
        forallb (probe_eqb fuel (so_fact o) s') (so_lib o) && insts_eqb (so_fact o) s' (so_insts o)).
 
 Fixpoint steps_diff (fuel : nat) (i : nat) (s : state body) (l : list c16_stepobs) : list nat :=
